@@ -80,3 +80,67 @@ func VerifDescribeMsg(m *Msg) VerifCDecode {
 	}
 	return out
 }
+
+// verifStubSConn is an SConn whose inbound bytes are a fixed slice and whose in-flight queue
+// always yields a fresh fragment.
+type verifStubSConn struct {
+	SConn
+	buf       []byte
+	discarded int
+	status    InitializeStatus
+	step      int8
+}
+
+func (c *verifStubSConn) Peek(n int) ([]byte, error) { return c.buf, nil }
+func (c *verifStubSConn) Discard(n int) (int, error) {
+	c.discarded += n
+	c.buf = c.buf[n:]
+	return n, nil
+}
+func (c *verifStubSConn) Fd() int                                { return 8 }
+func (c *verifStubSConn) DequeueInFrag() *Frag                   { return new(Frag) }
+func (c *verifStubSConn) InitializeStatus() InitializeStatus     { return c.status }
+func (c *verifStubSConn) SetInitializeStatus(s InitializeStatus) { c.status = s }
+func (c *verifStubSConn) InitializeStep() int8                   { return c.step }
+
+// VerifSDecode is the observable result of SRespCodec.Decode / InitializingDecode.
+type VerifSDecode struct {
+	Err      string // VerifErrName of the returned error
+	Type     codec.Command
+	Consumed int
+	Status   InitializeStatus
+}
+
+// VerifDecodeServer runs the production reply decoder on b.
+func VerifDecodeServer(limit int, b []byte) VerifSDecode {
+	VerifSetCodecs(limit)
+	c := &verifStubSConn{buf: append([]byte(nil), b...), status: Initialized}
+	f, err := EngineGlobal.sCodec.Decode(c)
+	out := VerifSDecode{Err: verifErrName(err), Consumed: c.discarded}
+	if err == nil && f != nil {
+		out.Type = f.Type
+	}
+	return out
+}
+
+// VerifInitDecode runs the production handshake decoder on b with the given step count.
+func VerifInitDecode(step int8, b []byte) VerifSDecode {
+	VerifSetCodecs(1 << 20)
+	c := &verifStubSConn{buf: append([]byte(nil), b...), status: Initializing, step: step}
+	err := EngineGlobal.sCodec.InitializingDecode(c)
+	return VerifSDecode{Err: verifErrName(err), Consumed: c.discarded, Status: c.status}
+}
+
+func verifErrName(err error) string {
+	switch err {
+	case nil:
+		return "nil"
+	case codec.ErrInvalidResp:
+		return "invalid"
+	case codec.ErrInvalidInitializing:
+		return "invalid-init"
+	case codec.ErrUnKnown:
+		return "unknown"
+	}
+	return "wait"
+}
